@@ -10495,3 +10495,271 @@ func ruleIdxEmptyAll(prop string) ruleFn {
 		}
 	}
 }
+
+// LOOP-SCRATCH (C03, C04, C14): a map that serves every round of a loop is emptied for each.
+func ruleLoopScratch(prop string) ruleFn {
+	return func(w *World, r *Report) {
+		r.Rule("LOOP-SCRATCH", "in core, a map that lives across the rounds of a loop (it is made before the loop, or once inside it under a `== nil` test), is filled in each round from a map that belongs to that round (a nested `for k, v := range thisRound { m[k] = v }`) and is then handed to a call in the same round, is emptied in the loop (`delete` under a range over it) — or made per round.  Overwriting is not emptying: what an earlier round put in under a key that this round does not have is still there, and the callee (a script, a sub-query) sees bindings of another candidate", 0)
+		n := 0
+		for _, fn := range w.Funcs {
+			if w.RelPkg(fn) != "core" || isTestFile(w, fn) || len(fn.Blocks) == 0 {
+				continue
+			}
+			loops := naturalLoops(fn)
+			if len(loops) < 2 {
+				continue
+			}
+			for _, L := range loops {
+				// maps carried round the loop: phi closure of the map operand reaches a phi in L's header
+				carried := func(m ssa.Value) bool {
+					seen := map[ssa.Value]bool{}
+					var rec func(v ssa.Value) bool
+					rec = func(v ssa.Value) bool {
+						if seen[v] {
+							return false
+						}
+						seen[v] = true
+						switch x := v.(type) {
+						case *ssa.Phi:
+							if x.Block() == L.Header {
+								return true
+							}
+							for _, e := range x.Edges {
+								if rec(e) {
+									return true
+								}
+							}
+						case *ssa.ChangeType:
+							return rec(x.X)
+						case *ssa.MakeMap:
+							return !L.Body[x.Block()]
+						case *ssa.UnOp:
+							// a local slot assigned before the loop
+							if a, ok := x.X.(*ssa.Alloc); ok && !L.Body[a.Block()] {
+								return true
+							}
+						}
+						return false
+					}
+					return rec(m)
+				}
+				alias := func(a, b ssa.Value) bool {
+					// same map up to phis
+					set := map[ssa.Value]bool{}
+					var grow func(v ssa.Value)
+					grow = func(v ssa.Value) {
+						if set[v] {
+							return
+						}
+						set[v] = true
+						switch x := v.(type) {
+						case *ssa.Phi:
+							for _, e := range x.Edges {
+								grow(e)
+							}
+						case *ssa.ChangeType:
+							grow(x.X)
+						case *ssa.UnOp:
+							// the variable's slot (its address is taken: a pointer-receiver method is called on it)
+							if al, isA := x.X.(*ssa.Alloc); isA && x.Op == token.MUL {
+								grow(al)
+							}
+						}
+					}
+					grow(a)
+					sb := map[ssa.Value]bool{}
+					set, sb = sb, set
+					grow(b)
+					for v := range set {
+						if sb[v] {
+							if _, isC := v.(*ssa.Const); !isC {
+								return true
+							}
+						}
+					}
+					return false
+				}
+				for b := range L.Body {
+					for _, in := range b.Instrs {
+						mu, ok := in.(*ssa.MapUpdate)
+						if !ok || !carried(mu.Map) {
+							continue
+						}
+						// filled from a map of this round: the key comes out of a range (in a nested loop) over a value made in L
+						perRound := dependsOn(mu.Key, func(v ssa.Value) bool {
+							nx, ok := v.(*ssa.Next)
+							if !ok {
+								return false
+							}
+							rg, ok := nx.Iter.(*ssa.Range)
+							if !ok || !L.Body[rg.Block()] {
+								return false
+							}
+							if _, isMap := rg.X.Type().Underlying().(*types.Map); !isMap {
+								return false
+							}
+							if alias(rg.X, mu.Map) {
+								return false
+							}
+							in2, isI := rg.X.(ssa.Instruction)
+							return isI && L.Body[in2.Block()]
+						})
+						if !perRound {
+							continue
+						}
+						// handed to a call in the loop
+						used := false
+						emptied := false
+						for b2 := range L.Body {
+							for _, in2 := range b2.Instrs {
+								c := callOf(in2)
+								if c == nil {
+									continue
+								}
+								if bi, isB := c.Value.(*ssa.Builtin); isB {
+									if (bi.Name() == "delete" || bi.Name() == "clear") && len(c.Args) > 0 && alias(c.Args[0], mu.Map) {
+										emptied = true
+									}
+									continue
+								}
+								for _, a := range c.Args {
+									x := a
+									if mi, isMI := x.(*ssa.MakeInterface); isMI {
+										x = mi.X
+									}
+									_, isMap := x.Type().Underlying().(*types.Map)
+									if pt, isP := x.Type().Underlying().(*types.Pointer); isP {
+										_, isMap = pt.Elem().Underlying().(*types.Map)
+									}
+									if isMap && alias(x, mu.Map) {
+										if f := c.StaticCallee(); f == nil || f.Name() != "Log" {
+											used = true
+										}
+									}
+								}
+							}
+						}
+						if !used {
+							continue
+						}
+						n++
+						key := "fn=" + fname(fn) + " map#" + itoa(n)
+						if emptied {
+							r.ok("LOOP-SCRATCH", key, w.PosOf(in), "one map for every round, emptied in the loop")
+						} else {
+							r.violation("LOOP-SCRATCH", "fn="+fname(fn), w.PosOf(in), "one map serves every round of the loop, is filled from this round's map and handed on, and is never emptied: keys of an earlier round that this round does not have are still in it")
+						}
+					}
+				}
+			}
+		}
+		if n == 0 {
+			r.ok("LOOP-SCRATCH", "pkg=core", "", "no map that is carried round a loop is filled from a per-round map and handed to a call")
+		}
+	}
+}
+
+// TIMER-RECYCLE (C14): a timer that goes back into a pool takes no tick with it.
+func ruleTimerRecycle(w *World, r *Report) {
+	r.Rule("TIMER-RECYCLE", "a time.Timer that is used again (put back into a sync.Pool, or Reset later) can have fired between the moment its user stopped listening and the moment it is stopped: the tick then waits in the channel, and the next user — the watchdog of another script — sees its time-out expire at once.  In a function that stops a timer and hands it to sync.Pool.Put, the result of Stop is therefore looked at, and a receive from the timer's channel hangs on it (`if !t.Stop() { select { case <-t.C: default: } }`)", 0)
+	n := 0
+	for _, fn := range w.Funcs {
+		if !w.IsRulio(fn) || isTestFile(w, fn) || len(fn.Blocks) == 0 {
+			continue
+		}
+		var puts []ssa.Value
+		allInstrs(fn, func(in ssa.Instruction) {
+			c := callOf(in)
+			if c == nil || c.StaticCallee() == nil || c.StaticCallee().Pkg == nil || c.StaticCallee().Pkg.Pkg.Path() != "sync" || c.StaticCallee().Name() != "Put" || len(c.Args) != 2 {
+				return
+			}
+			v := c.Args[1]
+			if mi, ok := v.(*ssa.MakeInterface); ok {
+				v = mi.X
+			}
+			if nn := namedOf(v.Type()); nn != nil && typeKey(nn) == "time.Timer" {
+				puts = append(puts, cellOf(v))
+			}
+		})
+		if len(puts) == 0 {
+			continue
+		}
+		allInstrs(fn, func(in ssa.Instruction) {
+			c := callOf(in)
+			if c == nil || c.StaticCallee() == nil || c.StaticCallee().Pkg == nil || c.StaticCallee().Pkg.Pkg.Path() != "time" || c.StaticCallee().Name() != "Stop" || len(c.Args) != 1 {
+				return
+			}
+			if _, isDefer := in.(*ssa.Defer); isDefer {
+				return
+			}
+			t := cellOf(c.Args[0])
+			pooled := false
+			for _, p := range puts {
+				if sameValue(p, t) {
+					pooled = true
+				}
+			}
+			if !pooled {
+				return
+			}
+			n++
+			key := "fn=" + fname(fn) + " stop#" + itoa(n)
+			res, isVal := in.(ssa.Value)
+			drained := false
+			if isVal && res.Referrers() != nil && len(*res.Referrers()) > 0 {
+				allInstrs(fn, func(x ssa.Instruction) {
+					isRecv := false
+					switch y := x.(type) {
+					case *ssa.UnOp:
+						if y.Op == token.ARROW {
+							if _, f, base, ok := fieldOf(addrOfLoad(y.X)); ok && f == "C" && sameValue(cellOf(base), t) {
+								isRecv = true
+							}
+						}
+					case *ssa.Select:
+						for _, st := range y.States {
+							if st.Dir == types.RecvOnly {
+								if _, f, base, ok := fieldOf(addrOfLoad(st.Chan)); ok && f == "C" && sameValue(cellOf(base), t) {
+									isRecv = true
+								}
+							}
+						}
+					}
+					if isRecv && controlDependsOn(fn, x, func(v ssa.Value) bool { return dependsOn(v, func(z ssa.Value) bool { return z == res }) }) {
+						drained = true
+					}
+				})
+			}
+			if drained {
+				r.ok("TIMER-RECYCLE", key, w.PosOf(in), "the result of Stop is tested and a pending tick is taken out")
+			} else {
+				r.violation("TIMER-RECYCLE", "fn="+fname(fn), w.PosOf(in), "the timer is stopped and put back into the pool without looking at what Stop said: a tick that was sent in the meantime stays in the channel, and the next script that gets this timer is interrupted at once")
+			}
+		})
+	}
+	if n == 0 {
+		r.ok("TIMER-RECYCLE", "scope=rulio", "", "no timer is recycled through a pool")
+	}
+}
+
+// cellOf: a captured variable stands for all its loads.
+func cellOf(v ssa.Value) ssa.Value {
+	v = resolveSpill(v)
+	if u, ok := v.(*ssa.UnOp); ok && u.Op == token.MUL {
+		if fv, isF := u.X.(*ssa.FreeVar); isF {
+			return fv
+		}
+		if al, isA := u.X.(*ssa.Alloc); isA {
+			return al
+		}
+	}
+	return v
+}
+
+// addrOfLoad: for a value loaded from a field (`*(&t.C)`), the field's address.
+func addrOfLoad(v ssa.Value) ssa.Value {
+	if u, ok := v.(*ssa.UnOp); ok && u.Op == token.MUL {
+		return u.X
+	}
+	return v
+}
